@@ -6,8 +6,10 @@ pub mod c14;
 pub mod common;
 pub mod graph;
 pub mod sched_props;
+pub mod text_props;
+pub mod tree_props;
 pub mod c15;
 
 pub fn registry() -> Vec<PropInfo> {
-    vec![c01::info(), sched_props::info_c02(), sched_props::info_c03(), sched_props::info_c05(), c14::info(), c15::info()]
+    vec![c01::info(), sched_props::info_c02(), sched_props::info_c03(), sched_props::info_c05(), tree_props::info_c06(), tree_props::info_c07(), tree_props::info_c08(), tree_props::info_c09(), tree_props::info_c10(), text_props::info_c12(), text_props::info_c13(), c14::info(), c15::info(), text_props::info_c16()]
 }
